@@ -157,7 +157,7 @@ pub fn run(case: &Value, _params: &Params, out: &mut Vec<Value>) {
     let xi: Vec<i64> = (0..n).map(|_| rng.range(-12, 12)).collect();
     let yi: Vec<i64> = (0..n).map(|_| rng.range(0, 4)).collect();
     let nan_at: Vec<bool> = (0..n).map(|_| nanp && rng.chance(1, 5)).collect();
-    let xf: Vec<f64> = xi.iter().zip(&nan_at).map(|(&v, &m)| if m { f64::NAN } else { v as f64 / 4.0 }).collect();
+    let xf: Vec<f64> = xi.iter().zip(&nan_at).map(|(&v, &m)| if m { nan64() } else { v as f64 / 4.0 }).collect();
     let yf: Vec<f64> = yi.iter().map(|&v| v as f64 / 4.0).collect();
     let axis = rng.below(nd.max(1) as u64) as usize;
     let wl = if nd == 0 { 0 } else { shape[axis] };
